@@ -21,6 +21,7 @@ import (
 	"runtime/debug"
 	"sort"
 	"strconv"
+	"strings"
 	"sync"
 	"sync/atomic"
 	"testing"
@@ -638,12 +639,16 @@ var w1LayoutCatalogue = []w1Layout{
 	// long string values
 	{vals: [5]string{1: "1", 2: "value-longer-than-the-others-0123456789"}},
 	{vals: [5]string{1: "9", 3: "another-rather-long-string-tag-value-abcdefghijklmnopqrstuvwxyz"}},
+	// the longest values a tag may carry (format.MaxStringLen = 128) and one byte less: the boundary of
+	// the one-byte length prefix of the row encoding
+	{vals: [5]string{1: "3", 2: strings.Repeat("m", 128)}},
+	{vals: [5]string{1: "3", 3: strings.Repeat("n", 127)}},
 	// others
 	{vals: [5]string{1: "300", 4: "70000"}},
 	{vals: [5]string{3: "q"}},
 }
 
-const w1LayoutShort, w1LayoutLong = 5, 2 // sizes of the two groups after the plain layout
+const w1LayoutShort, w1LayoutLong = 5, 4 // sizes of the two groups after the plain layout
 
 // keyString: the (time, metric, tags, string-top) key of the rows this layout produces, in the
 // notation of w1KeyString.
